@@ -1,15 +1,16 @@
 """C19 - the checkpoint store reflects the last update; without one everything is changed."""
 import gitscen
-THEOREMS = [("Properties.C19", "C19_holds")]
+THEOREMS = [("Properties.C19", "C19_holds"), ("Properties.C19", "C19_save_holds"), ("AsFound.C19", "C19_as_found_refuted")]
 CORRESPONDENCE = "checkpoint update/show/delete, out delete --all on a real repository == Model.Checkpoint store + Model.Git.update_pending"
 LEVEL_NOTE = ("Coq theorem C19_holds: for every sequence of update/show/delete/out-delete operations, show returns what the most recent successful update returned, "
               "and nothing after a delete. Tied by real scenarios interleaving these operations with commits and edits: each update's id must be HEAD (or --id), its "
               "pending map must equal the model's (including the retained-pending behaviour), show must return it verbatim, and after delete/out delete --all show fails "
-              "and analyze reports checkpointed=false with every configured target.")
+              "and analyze reports checkpointed=false with every configured target. C19_save_holds (Model/CheckpointSave.v): when the file system may refuse a save's data, show returns the record of the most recent update "
+              "that REPORTED success - a refused save reports failure and changes nothing; AsFound/C19.v refutes it for the pinned commit's truncate-in-place save whose write error was swallowed.")
 TRUSTED = ["Coq 8.16.1 kernel; no axioms", "zstd + serde_json round trip of checkpoint.json.zst", "git rev-parse HEAD",
            "'run covers every target' after deletion is exercised by C05's scenarios (no-checkpoint mode)",
            "modelled, not verified: the Rust source (src/app/checkpoint.rs, src/core/tracking.rs, src/app/out.rs)"]
-RULE = ("histories with ~35% store operations (update [--id] [--pending], updates that fail because git cannot be run - also right after a delete -, delete, out delete --all) between edits and commits; after each: show vs the update's own output, "
+RULE = ("histories with ~35% store operations (update [--id] [--pending], updates that fail because git cannot be run - also right after a delete -, delete, out delete --all - from the repository root or another directory, also with the tracking directory being a symbolic link -, updates under which every write to the checkpoint file fails with ENOSPC (strace injection), an edit recorded as pending and then taken back between two updates, one pending set of 6000 paths) between edits and commits; after each: show vs the update's own output, "
         "id vs rev-parse HEAD, pending vs model; non-trivial = update that recorded a pending map, or the post-delete check; distinct by trail")
 def run(ctx, scale): gitscen.run(ctx, scale, "C19")
 def replay(ctx, case): return gitscen.replay(ctx, case, "C19")
